@@ -586,3 +586,178 @@ for _q in ('exhaustive_search', 'greedy_search'):
        'n_designs)', _search_post_len, ('C14',)),
   ], ('C01',)))
 
+
+# ---------------------------------------------------------------------------
+# exactness of the control size generator and count_max_designs (C11)
+
+from mmverif.contracts.tbrmatchedmarkets_spec import (ctl_size_ok, trt_bounds,
+                                                      ctl_bounds)  # noqa
+
+
+def _csg_exact(s):
+  """The yielded control sizes are exactly the admissible ones."""
+  ga = GA(s)
+  m = z3.Int('m!cx')
+  ys = S(s.yielded)
+  return z3.ForAll([m], z3.IsMember(m, ys) == ctl_size_ok(
+      s, ga, m, N(s.n_treatment_geos)))
+
+
+def _csg_loop_inv(s):
+  ga = GA(s)
+  m = z3.Int('m!ci')
+  ys = S(s.yielded)
+  lo = N(s.n_geos_from)
+  k = N(s.iter_index)
+  return z3.ForAll([m], z3.IsMember(m, ys) == z3.And(
+      m < lo + k, ctl_size_ok(s, ga, m, N(s.n_treatment_geos))))
+
+
+_c = spec.contracts[CLS + '._control_group_size_generator']
+_c.gen_post = _clauses([('C11 exactly the admissible control sizes are '
+                         'yielded', _csg_exact, ('C11', 'C03'))], ('C11',))
+_c.loops = [LoopSpec(('n_control_geos', 'range(n_geos_from, n_geos_to + 1)'),
+                     invariants=[('sizes yielded so far are exactly the '
+                                  'admissible ones below the current size',
+                                  _csg_loop_inv, ('C11', 'C03'))])]
+
+BIN = lc.BINOM
+S1 = z3.Function('CMD_S1', I, I)
+S2 = z3.Function('CMD_S2', I, I, I)
+S3 = z3.Function('CMD_S3', I, I, I, I)
+S4 = z3.Function('CMD_S4', I, I, I, I, I)
+S5 = z3.Function('CMD_S5', I, I, I, I, I, I)
+
+
+def _counts(s):
+  ga = GA(s)
+  return {k: card(S(getattr(ga, k))) for k in
+          ('t_fixed', 'c_fixed', 'cx', 'tx', 'ct', 'ctx')}
+
+
+def _TS(s, n):
+  lo, hi = trt_bounds(s, GA(s))
+  return z3.And(n >= lo, n <= hi)
+
+
+def _CS(s, m, n):
+  return ctl_size_ok(s, GA(s), m, n)
+
+
+def _cmd_defs(s):
+  """Recursive definitions of the partial sums (the spec of the count)."""
+  c = _counts(s)
+  a, b, cc, d, e, m = z3.Ints('a!d b!d c!d d!d e!d m!d')
+  ntrt = c['t_fixed'] + b + cc + a
+  nctl = c['c_fixed'] + d + e + (c['ct'] - a)
+  prod = BIN(c['ct'], a) * BIN(c['tx'], b) * BIN(c['ctx'], cc) * BIN(
+      c['cx'], d) * BIN(c['ctx'] - cc, e)
+  term = z3.If(_CS(s, nctl, ntrt), prod, 0)
+  ntrt3 = c['t_fixed'] + b + m + a
+  return z3.And(
+      z3.ForAll([a, b, cc, d], S5(a, b, cc, d, 0) == 0),
+      z3.ForAll([a, b, cc, d, e], z3.Implies(
+          e >= 0, S5(a, b, cc, d, e + 1) == S5(a, b, cc, d, e) + term)),
+      z3.ForAll([a, b, cc], S4(a, b, cc, 0) == 0),
+      z3.ForAll([a, b, cc, m], z3.Implies(
+          m >= 0, S4(a, b, cc, m + 1) == S4(a, b, cc, m) + S5(
+              a, b, cc, m, 1 + c['ctx'] - cc))),
+      z3.ForAll([a, b], S3(a, b, 0) == 0),
+      z3.ForAll([a, b, m], z3.Implies(
+          m >= 0, S3(a, b, m + 1) == S3(a, b, m) + z3.If(
+              _TS(s, ntrt3), S4(a, b, m, 1 + c['cx']), 0))),
+      z3.ForAll([a], S2(a, 0) == 0),
+      z3.ForAll([a, m], z3.Implies(
+          m >= 0, S2(a, m + 1) == S2(a, m) + S3(a, m, 1 + c['ctx']))),
+      S1(0) == 0,
+      z3.ForAll([m], z3.Implies(
+          m >= 0, S1(m + 1) == S1(m) + S2(m, 1 + c['tx']))))
+
+
+def _cmd_sets(s):
+  """The pre-computed size sets are the admissible sizes."""
+  n, m = z3.Ints('n!cs m!cs')
+  ts = S(s.trt_sizes)
+  cgs = unwrap(s.control_group_sizes)
+  return z3.And(
+      z3.ForAll([n], z3.IsMember(n, ts) == _TS(s, n)),
+      cgs.dom == ts,
+      z3.ForAll([n, m], z3.Implies(
+          z3.IsMember(n, ts),
+          z3.IsMember(m, z3.Select(cgs.val, n)) == _CS(s, m, n))))
+
+
+def _cmd_sets_inv(s):
+  n, m = z3.Ints('n!ci m!ci')
+  ts = S(s.trt_sizes)
+  cgs = unwrap(s.control_group_sizes)
+  vis = S(s.visited)
+  return z3.And(
+      z3.ForAll([n], z3.IsMember(n, ts) == _TS(s, n)),
+      cgs.dom == vis,
+      z3.ForAll([n, m], z3.Implies(
+          z3.IsMember(n, vis),
+          z3.IsMember(m, z3.Select(cgs.val, n)) == _CS(s, m, n))))
+
+
+def _nd(s):
+  return N(s.n_designs)
+
+
+def _inv1(s):
+  return z3.And(_cmd_sets(s), _nd(s) == S1(N(s.iter_index)))
+
+
+def _inv2(s):
+  return _nd(s) == S1(N(s.i_ct)) + S2(N(s.i_ct), N(s.iter_index))
+
+
+def _inv3(s):
+  return _nd(s) == S1(N(s.i_ct)) + S2(N(s.i_ct), N(s.i_tx)) + S3(
+      N(s.i_ct), N(s.i_tx), N(s.iter_index))
+
+
+def _inv4(s):
+  return _nd(s) == S1(N(s.i_ct)) + S2(N(s.i_ct), N(s.i_tx)) + S3(
+      N(s.i_ct), N(s.i_tx), N(s.i_ctx)) + S4(
+          N(s.i_ct), N(s.i_tx), N(s.i_ctx), N(s.iter_index))
+
+
+def _inv5(s):
+  return _nd(s) == S1(N(s.i_ct)) + S2(N(s.i_ct), N(s.i_tx)) + S3(
+      N(s.i_ct), N(s.i_tx), N(s.i_ctx)) + S4(
+          N(s.i_ct), N(s.i_tx), N(s.i_ctx), N(s.i_cx)) + S5(
+              N(s.i_ct), N(s.i_tx), N(s.i_ctx), N(s.i_cx), N(s.iter_index))
+
+
+def _cmd_post(s):
+  c = _counts(s)
+  return N(s.result) == S1(1 + c['ct'])
+
+
+DEFS = ('definition of the partial sums', _cmd_defs, ())
+spec.contract(
+    CLS + '.count_max_designs', params={}, result=TInt(),
+    modifies=GA_MOD, props=('C11',),
+    requires=INV + [DEFS],
+    locals_shapes={'control_group_sizes': TDict(I, TSet())},
+    ensures=[('C11 the count is the five-fold sum of binomial products over '
+              'admissible treatment and control sizes', _cmd_post, ('C11',)),
+             ('afterwards the geo index of geo_assignments is installed',
+              installed, ('C10',))],
+    loops=[
+        LoopSpec(('n_trt', 'trt_sizes'), invariants=[
+            ('control size sets computed so far are exact', _cmd_sets_inv),
+            ('index installed', installed)], extra_modifies=GA_FIELDS_MOD),
+        LoopSpec(('i_ct', 'range(1 + n_ct)'), invariants=[
+            ('partial sum 1', _inv1)]),
+        LoopSpec(('i_tx', 'range(1 + n_tx)'), invariants=[
+            ('partial sum 2', _inv2)]),
+        LoopSpec(('i_ctx', 'range(1 + n_ctx)'), invariants=[
+            ('partial sum 3', _inv3)]),
+        LoopSpec(('i_cx', 'range(1 + n_cx)'), invariants=[
+            ('partial sum 4', _inv4)]),
+        LoopSpec(('i_cctx', 'range(1 + n_ctx - i_ctx)'), invariants=[
+            ('partial sum 5', _inv5)]),
+    ])
+FUNCTIONS2.append(CLS + '.count_max_designs')
